@@ -5,6 +5,9 @@ when the orjson flag is in force), loads is its inverse and raises on malformed
 input.  Objects are abstract: a symbolic text stands for one object."""
 
 
+from vp.harness import unmodelled, unmodelled_attr
+
+
 class BytesLike(object):
     def __init__(self, s):
         self.s = s
@@ -19,7 +22,15 @@ class LineJSON(object):
         self.dumped = 0
         self.loaded = 0
 
-    def dumps(self, obj):
+    JSONDecodeError = ValueError
+    OPT_APPEND_NEWLINE = 1024        # orjson's option: would break "no raw newline in dumps output" - reported as not modelled when used
+
+    def __getattr__(self, name):
+        unmodelled_attr('json.', name)
+
+    def dumps(self, obj, *a, **kw):
+        if a or kw.get('indent') is not None or kw.get('option'):
+            unmodelled('json.dumps%r%r' % (a, sorted(kw)))
         self.dumped += 1
         out = ['J']
         for ch in obj:
@@ -32,7 +43,9 @@ class LineJSON(object):
         t = ''.join(out)
         return BytesLike(t) if self.as_bytes else t
 
-    def loads(self, text):
+    def loads(self, text, *a, **kw):
+        if a or kw:
+            unmodelled('json.loads%r%r' % (a, sorted(kw)))
         self.loaded += 1
         if isinstance(text, (bytes, bytearray)):
             text = text.decode('utf-8')
